@@ -57,7 +57,8 @@ def make_field(cc, node, built, path):
             kw[name] = p.pop(name)
     if "default" in p:
         d = realize(cc, p.pop("default"))
-        if p.pop("default_callable", False):
+        how = p.pop("default_callable", False)
+        if how:
             built.calls[path] = 0
 
             def default(d=d, path=path):
@@ -66,6 +67,16 @@ def make_field(cc, node, built, path):
 
                 return copy.deepcopy(d)
 
+            if how == "partial":
+                import functools
+
+                default = functools.partial(default)  # callable, but not a function
+            elif how == "object":
+                class Factory:  # an instance with __call__
+                    def __call__(self, _f=default):
+                        return _f()
+
+                default = Factory()
             kw["default"] = default
         else:
             kw["default"] = d
@@ -345,7 +356,8 @@ def get_path(cfg, path):
     cur = cfg
     for seg in path.split("."):
         m = _SEG.fullmatch(seg)
-        cur = getattr(cur, m.group(1))
+        # item access on configurations: a key may be spelled like a method of the Config class
+        cur = cur[m.group(1)] if hasattr(type(cur), "_get_value") else getattr(cur, m.group(1))
         for idx in re.findall(r"\[(\d+)\]", m.group(2)):
             cur = cur[int(idx)]
     return cur
